@@ -79,7 +79,9 @@ class C01(Check):
     rule = ('from_kd_buf on (a) every record within Hamming distance <=2 (quick: bases zero/captured; thorough: 4 bases) of the '
             'base records, (b) every value 0..255 of each of the 64 bytes on each base, (c) all 2^16 values of '
             'the low and of the high half of the debug id on two bases, (d) all ordered sequences of <=3 decodes over a '
-            'pool of 8 records that share sub-fields (result must equal the solo decode). Oracle: independent byte-slicing '
+            'pool of 8 records that share sub-fields (result must equal the solo decode), (e) all ordered triples over a 9-record pool '
+            'reached through the container parsers (a v2 dump; v3 dumps for every composition of the 3 records into 1..3 chunks; two '
+            'v2 parses alive at once under every interleaving). Oracle: independent byte-slicing '
             'decoder, the algebraic clauses, rebuild of the first 52 bytes, single-bit non-interference. Distinct by '
             'construction per sub-space; non-trivial = the record differs from its base (or, for histories, has length >=2).')
     assumptions = ('2^512 records are not enumerable: a special case keyed on a specific value outside the enumerated shapes '
@@ -101,6 +103,7 @@ class C01(Check):
             out.append(('dbg16', bn, 0))
             out.append(('dbg16', bn, 1))
         out.append(('hist',))
+        out.append(('containers',))
         return out
 
     def run_shard(self, desc, acc):
@@ -152,6 +155,50 @@ class C01(Check):
                 off = 48 + 2 * half
                 b = base[:off] + v.to_bytes(2, 'little') + base[off + 2:]
                 self._one(acc, b, ('dbg16', bn, half, v), nontrivial=True)
+        elif kind == 'containers':
+            # the same records reached through the container parsers (v2; v3 split over 1..3 chunks; two parses alive at once)
+            import io
+            from mc import build as B
+            from mc.space import compositions, interleavings
+            from pykdebugparser.kd_buf_parser import KdBufParser
+            P = [r for r in pool() if r[0] != 0] + [bytes(range(1, 65)), bytes(range(64, 0, -1))]
+            names = ['timestamp', 'data', 'values', 'tid', 'debugid', 'eventid', 'func_qualifier']
+
+            def events(blob):
+                return [(e.timestamp, e.data, tuple(e.values), e.tid, e.debugid, e.eventid, e.func_qualifier)
+                        for e in KdBufParser({}, {}).parse(io.BytesIO(blob))]
+            for seq in itertools.product(range(len(P)), repeat=3):
+                recs = [P[i] for i in seq]
+                exp = [ref_decode(r) for r in recs]
+                blobs = [('v2', B.v2([(1, 2, 'a')], 0, recs))]
+                for k in (1, 2, 3):
+                    for comp in compositions(3, k):
+                        chunks, i = [], 0
+                        for c in comp:
+                            chunks.append(recs[i:i + c])
+                            i += c
+                        blobs.append((f'v3{comp}', B.v3([(1, 2, 'a')], chunks)))
+                for label, blob in blobs:
+                    try:
+                        got = events(blob)
+                    except Exception as ex:
+                        got = repr(ex)
+                    acc.case(nontrivial=True, transitions=3, outcome=None)
+                    if got != exp:
+                        acc.violation('record-decoded-differently-through-container:' + label[:2], {'kind': 'container', 'seq': list(seq), 'label': label},
+                                      {'got': repr(got)[:300], 'expected': repr(exp)[:300]})
+            # two parses alive at once
+            a = B.v2([], 0, [P[0], P[1], P[2]])
+            b = B.v2([], 0, [P[3], P[4], P[5]])
+            for sched in interleavings([3, 3]):
+                gens = [KdBufParser({}, {}).parse(io.BytesIO(a)), KdBufParser({}, {}).parse(io.BytesIO(b))]
+                got = [[], []]
+                for who in sched:
+                    e = next(gens[who])
+                    got[who].append((e.timestamp, e.data, tuple(e.values), e.tid, e.debugid, e.eventid, e.func_qualifier))
+                acc.case(nontrivial=True, transitions=6)
+                if got != [[ref_decode(P[i]) for i in (0, 1, 2)], [ref_decode(P[i]) for i in (3, 4, 5)]]:
+                    acc.violation('record-decoded-differently-through-container:concurrent', {'kind': 'container-concurrent', 'schedule': list(sched)}, {})
         else:
             P = pool()
             solo = []
@@ -201,6 +248,11 @@ class C01(Check):
             elif must is None:
                 must = [owner]
             return [('interference:' + owner, {'changed': changed, 'expected': must})] if changed != sorted(must) else []
+        if case['kind'].startswith('container'):
+            from mc.run import Acc
+            acc = Acc()
+            self.run_shard(('containers',), acc)
+            return [(sig, v['cases'][0][1]) for sig, v in acc.violations.items()]
         P = pool()
         outs = [observe(P[k])[0] for k in case['seq']]
         for k, o in zip(case['seq'], outs):
